@@ -13,6 +13,8 @@ import ALV.Lemmas.C16Gen
 import ALV.Lemmas.C16Ctl
 import ALV.Lemmas.C16X
 import ALV.Lemmas.C16XNext
+import ALV.Lemmas.C16Prune
+import ALV.Lemmas.C16K
 import ALV.Common.Audit
 
 namespace ALV.Props.C16
@@ -292,6 +294,147 @@ theorem next_after_history_with_failures [XAdd ε α] (zero : α) (keep : Bool) 
                 (srun (Except.ok zero : Except ε α) (SState.init keep) (erase ops)).1.n)] :=
   x_next_after_history zero keep ops hal
 
+
+/-! ### round 4: the traced runs, the prune step with identities, the type of a sample, a mutable zero -/
+
+/-- **C16.20** the traced run the driver prints for `streamix` / `streamix_seq` / `streamix_k` is the
+run the theorems are about: its observations are those of `prun`, and the state it shows after
+operation `k` is the state of `prun` on the first `k+1` operations (so `container_sizes`,
+`count_invariant`, `playing_after_next`, stated for every history, hold at every printed step). -/
+theorem ptrace_is_prun [Add α] (zero : α) (s : PState α) (ops : List (Op α)) :
+    (ptrace zero s ops).map (·.2) = (prun zero s ops).2 ∧
+    ∀ k, k < ops.length → ((ptrace zero s ops)[k]?).map (·.1) = some (prun zero s (ops.take (k + 1))).1 :=
+  ⟨ptrace_obs zero ops s, ptrace_state zero ops s⟩
+
+/-- … and the same for the machine with exceptions (`streamix_x` / `streamix_sys`). -/
+theorem xtrace_is_xrun [XAdd ε α] (zero : α) (s : PState (Except ε α)) (ops : List (XOp ε α)) :
+    (xtrace zero s ops).map (·.2) = (xrun zero s ops).2 ∧
+    ∀ k, k < ops.length → ((xtrace zero s ops)[k]?).map (·.1) = some (xrun zero s (ops.take (k + 1))).1 :=
+  ⟨xtrace_obs zero ops s, xtrace_state zero ops s⟩
+
+/-- **C16.21** (the prune step, any number of events finishing on the same sample).  On distinct
+iterator objects the summing pass puts into `to_remove` exactly the exhausted objects, in playing
+order, and after `for snd in to_remove: _playing.remove(snd)` the list `_playing` is exactly the
+objects that still gave an item, in their order, each advanced by one item. -/
+theorem prune_removes_exactly_finished [Add α] (d : α) (pl : List (Snd α)) (h : (pl.map (·.id)).Nodup) :
+    (sumLoop d pl).2.2 = (pl.filter (fun s => !s.live)).map (·.id) ∧
+    removeAll (sumLoop d pl).2.2 (sumLoop d pl).2.1 = (pl.filter Snd.live).map Snd.advance :=
+  ⟨sumLoop_toRemove pl d, prune_exact pl d h⟩
+
+/-- **C16.22** (the same, after ANY history).  Let `s` be the mixer after any history that has not
+ended it.  One more `next` moves a prefix of `_not_playing` (the events whose time has come, in the
+order added) to the end of `_playing`, and leaves in `_playing` exactly the unfinished ones among
+(old `_playing` ++ newly started), in that order, each advanced by one item — chords that end
+together, different starts and lengths that end together, with other events going on. -/
+theorem playing_after_next [Add α] (zero : α) (keep : Bool) (ops : List (Op α))
+    (h : (prun zero (PState.init keep) ops).1.ended = false) :
+    ∃ k, k ≤ (prun zero (PState.init keep) ops).1.notPlaying.length ∧
+      (pstep zero (prun zero (PState.init keep) ops).1 .next).1.playing =
+        (((prun zero (PState.init keep) ops).1.playing ++
+            ((prun zero (PState.init keep) ops).1.notPlaying.take k).map (·.2)).filter Snd.live).map Snd.advance ∧
+      (pstep zero (prun zero (PState.init keep) ops).1 .next).1.notPlaying =
+        (prun zero (PState.init keep) ops).1.notPlaying.drop k := by
+  have hi := (prun_refines zero ops (PState.init keep : PState α) (pinv_init keep)).2.2
+  generalize (prun zero (PState.init keep) ops).1 = s at h hi
+  obtain ⟨k, hk, h1, h2⟩ :=
+    pstartLoop_prefix s.notPlaying (if s.suspended then s.count + 1 else s.count) s.playing
+  refine ⟨k, hk, ?_, ?_⟩
+  · show (pnext zero s).1.playing = _
+    rw [pnext_playing zero s hi h, h1]
+  · show (pnext zero s).1.notPlaying = _
+    rw [← h2]
+    generalize hr : pstartLoop (if s.suspended then s.count + 1 else s.count) s.notPlaying s.playing = r
+    obtain ⟨c, q', pl'⟩ := r
+    rw [pnext_live zero s h hr]
+    split <;> rfl
+
+/-- … and in the machine with exceptions, for a `next` that does not raise, after any history with
+failed adds and raising items. -/
+theorem x_playing_after_next [XAdd ε α] (zero : α) (keep : Bool) (ops : List (XOp ε α))
+    (h : (xrun zero (PState.init keep) ops).1.ended = false)
+    (hno : ∀ e, (xstep zero (xrun zero (PState.init keep) ops).1 .next).2 ≠ .raised e) :
+    ∃ k, k ≤ (xrun zero (PState.init keep) ops).1.notPlaying.length ∧
+      (xstep zero (xrun zero (PState.init keep) ops).1 .next).1.playing =
+        (((xrun zero (PState.init keep) ops).1.playing ++
+            ((xrun zero (PState.init keep) ops).1.notPlaying.take k).map (·.2)).filter Snd.live).map Snd.advance := by
+  have hi := xrun_pinv zero ops (PState.init keep) (pinv_init keep)
+  generalize (xrun zero (PState.init keep) ops).1 = s at h hi hno
+  obtain ⟨k, hk, h1, _⟩ :=
+    pstartLoop_prefix s.notPlaying (if s.suspended then s.count + 1 else s.count) s.playing
+  refine ⟨k, hk, ?_⟩
+  show (xnext zero s).1.playing = _
+  rw [xnext_playing zero s hi h hno, h1]
+
+/-- **C16.23** a sample at which no event gives an item IS the zero value (the object itself: same
+value, same Python type), at any sample — before the first event, in a gap, past the end. -/
+theorem idle_sample_is_zero [Add α] (zero : α) (n : Nat) (evs : List (SEv α))
+    (h : ∀ e ∈ evs, term n e = none) : outAt zero n evs = zero := by
+  unfold outAt
+  rw [List.filterMap_eq_nil_iff.2 h]
+  rfl
+
+/-- **C16.24** (value AND Python type of every sample).  Over Python numbers (`PyNum`: kind bool <
+int < Fraction < float < complex and exact value; `+` gives the larger operand kind, at least int)
+the sample `outAt zero n evs` — what `streamix_model_eq_spec` / `next_after_history` say the mixer
+delivers — has the value `zero + Σ items due` whether or not `zero` is an additive identity (a
+bias `Fraction(7,2)`, `-3`), and its type is that of `zero` when nothing is due and otherwise the
+largest kind among `zero` and the items due, at least int (`Fraction(0)` + ints: Fraction; `0.0` +
+ints: float; `0j` + anything: complex; `False` + bools: int). -/
+theorem typed_sample (zero : PyNum) (n : Nat) (evs : List (SEv PyNum)) :
+    (outAt zero n evs).re = zero.re + ((evs.filterMap (term n)).map (·.re)).sum ∧
+    (outAt zero n evs).im = zero.im + ((evs.filterMap (term n)).map (·.im)).sum ∧
+    (outAt zero n evs).kind =
+      if evs.filterMap (term n) = [] then zero.kind
+      else Kind.join .int (((evs.filterMap (term n)).map (·.kind)).foldl Kind.join zero.kind) := by
+  refine ⟨foldl_pynum_re _ zero, foldl_pynum_im _ zero, ?_⟩
+  split
+  · next h => unfold outAt; rw [h]; rfl
+  · next h => exact foldl_pynum_kind _ zero h
+
+/-- **C16.25** (a MUTABLE zero, e.g. `zero=[]` with list items: `data = zero; data += item` extends
+the zero object in place).  For every history the mixer shows the spec's log and closed-form sum,
+except that the sum of a sample starts from the LAST DELIVERED SAMPLE instead of the constructor's
+zero (`ksrun`); queue, playing list, clock and end are those of the ordinary machine. -/
+theorem mutable_zero_accumulates [Add α] (zero : α) (keep : Bool) (ops : List (Op α)) :
+    (krun zero (PState.init keep) ops).2.2 = ksrun zero (SState.init keep) ops ∧
+    (krun zero (PState.init keep) ops).2.1 = (prun zero (PState.init keep) ops).1 :=
+  ⟨krun_eq_ksrun ops zero _ _ (pinv_init keep) (by rw [absP_init]; exact sim_init keep),
+   krun_state zero ops zero _⟩
+
+/-- the property's clause "the zero value plus the items due at n" is FALSE for a mutable zero:
+`Streamix(zero=[])`, `add(0, [[1], [2]])` delivers `[1]` and then `[1, 2]`, not `[2]`. -/
+theorem mutable_zero_refuted :
+    (krun (⟨[]⟩ : PyList) (PState.init false) [.add 0 [⟨[1]⟩, ⟨[2]⟩], .next, .next]).2.2 =
+      [.ok, .out ⟨[1]⟩ 1, .out ⟨[1, 2]⟩ 0] ∧
+    (srun (⟨[]⟩ : PyList) (SState.init false) [.add 0 [⟨[1]⟩, ⟨[2]⟩], .next, .next]).2 =
+      [.ok, .out ⟨[1]⟩ 1, .out ⟨[2]⟩ 0] := by
+  constructor <;> decide +kernel
+
+
+/-- **C16.26** (a delta beyond every horizon: `float('inf')`, and `nan`, which `count >= delta` never
+reaches either).  After any history, an event added with a delta `D > N + 1/2` gets a start beyond
+sample `N`: up to and including sample `N` it gives no item to any sample and is not over — so, with
+`starts_sorted` (no later event starts before it) and `next_after_history`, it blocks the queue and
+keeps a mixer without keep alive for the `N` samples; for an infinite delta this holds for every `N`. -/
+theorem beyond_horizon_never_starts [Add α] (zero : α) (keep : Bool) (ops : List (Op α)) (D : Rat)
+    (x : List α) (N : Nat) (hD : (N : Rat) + 1/2 < D) :
+    N < startTime ((srun zero (SState.init keep) ops).1.T + D) (srun zero (SState.init keep) ops).1.n ∧
+    ∀ m, m ≤ N →
+      term m (⟨startTime ((srun zero (SState.init keep) ops).1.T + D) (srun zero (SState.init keep) ops).1.n, x⟩ : SEv α)
+        = none ∧
+      ¬ (⟨startTime ((srun zero (SState.init keep) ops).1.T + D) (srun zero (SState.init keep) ops).1.n, x⟩ : SEv α).doneAt m := by
+  have hT := (logInv_run zero ops _ (logInv_init keep)).1
+  generalize (srun zero (SState.init keep) ops).1 = s at hT
+  have h1 := (startTime_early (T := s.T + D) (n := N) (by linarith)).2
+  have h2 : (nearest (s.T + D)).toNat ≤ startTime (s.T + D) s.n := by unfold startTime; omega
+  have h3 : N < startTime (s.T + D) s.n := by omega
+  refine ⟨h3, fun m hm => ⟨?_, ?_⟩⟩
+  · unfold term
+    rw [if_neg (by show ¬ startTime (s.T + D) s.n ≤ m; omega)]
+  · unfold SEv.doneAt
+    show ¬ startTime (s.T + D) s.n + x.length ≤ m
+    omega
+
 /-! non-vacuity: the statements are about non-trivial inputs -/
 
 -- the docstring example: [-1, 1, 4, 1, -3, -5, -7, -1], then the end
@@ -378,6 +521,38 @@ example : xAcceptedTime ([.add 1 [], .addFail 3 "TypeError", .add (-1) [], .add 
     = 3/2 := by decide +kernel
 -- sample_without_exceptions: a total `+`
 example : ∀ a b : Nat, (⟨fun a b => .ok (a + b)⟩ : XAdd String Nat).xadd a b = .ok (a + b) := fun _ _ => rfl
+
+
+/-! round 4 -/
+-- three notes of a chord end together while a fourth goes on: the objects 0, 1, 3 leave, 2 stays
+example : ((prun (0 : Int) (PState.init false)
+    [.add 0 [1, 1], .add 0 [2, 2], .add 0 [4, 4, 4, 4], .add 0 [8, 8], .next, .next, .next]).1.playing.map (·.id))
+    = [2] := by decide +kernel
+-- different starts and lengths that end together (starts 0, 1, 2; lengths 3, 2, 1), one still pending
+example : ((prun (0 : Int) (PState.init false)
+    [.add 0 [1, 1, 1], .add 1 [2, 2], .add 1 [4], .add 3 [8], .next, .next, .next, .next]).1.playing.map (·.id),
+   (prun (0 : Int) (PState.init false)
+    [.add 0 [1, 1, 1], .add 1 [2, 2], .add 1 [4], .add 3 [8], .next, .next, .next, .next]).1.notPlaying.map (·.2.id))
+    = ([], [3]) := by decide +kernel
+-- prune_removes_exactly_finished: distinct objects, two of four exhausted
+example : (([⟨0, []⟩, ⟨1, [5]⟩, ⟨2, []⟩, ⟨3, [6, 7]⟩] : List (Snd Int)).map (·.id)).Nodup := by decide
+-- playing_after_next / x_playing_after_next: live states
+example : (prun (0 : Int) (PState.init false) [.add 0 [1, 1], .add 0 [2, 2], .next, .next]).1.ended = false := by
+  decide +kernel
+-- typed samples: Fraction(0) + ints is a Fraction, 0.0 + int a float, False + True + True the int 2,
+-- an idle sample of a bool zero is that bool, a bias stays in every sample
+example : outAt (⟨.frac, 0, 0⟩ : PyNum) 0 [⟨0, [⟨.int, 1, 0⟩]⟩, ⟨0, [⟨.int, 2, 0⟩]⟩] = ⟨.frac, 3, 0⟩ := by
+  decide +kernel
+example : outAt (⟨.float, 0, 0⟩ : PyNum) 0 [⟨0, [⟨.int, 1, 0⟩]⟩] = ⟨.float, 1, 0⟩ := by decide +kernel
+example : outAt (⟨.bool, 0, 0⟩ : PyNum) 0 [⟨0, [⟨.bool, 1, 0⟩]⟩, ⟨0, [⟨.bool, 1, 0⟩]⟩] = ⟨.int, 2, 0⟩ := by
+  decide +kernel
+example : outAt (⟨.bool, 0, 0⟩ : PyNum) 1 [⟨0, [⟨.bool, 1, 0⟩]⟩] = ⟨.bool, 0, 0⟩ := by decide +kernel
+example : outAt (⟨.frac, 7/2, 0⟩ : PyNum) 0 [⟨0, [⟨.int, 1, 0⟩]⟩] = ⟨.frac, 9/2, 0⟩ := by decide +kernel
+example : outAt (⟨.complex, 0, 0⟩ : PyNum) 0 [⟨0, [⟨.frac, 1/2, 0⟩]⟩] = ⟨.complex, 1/2, 0⟩ := by decide +kernel
+-- idle_sample_is_zero: a gap between two events
+example : ∀ e ∈ ([⟨0, [1]⟩, ⟨3, [2]⟩] : List (SEv Int)), term 1 e = none := by decide
+-- beyond_horizon_never_starts: a delta beyond the horizon of 3 samples
+example : ((3 : Nat) : Rat) + 1/2 < 4 := by norm_num
 
 end ALV.Props.C16
 
